@@ -71,7 +71,8 @@ def _k(tier):
 
 
 def _blocks(tier):
-    bl = [("quartic", 2), ("quartic", 3), ("rosenbrock", 2), ("barrier", 2), ("cos1d", 1)]
+    bl = [("quartic", 2), ("quartic", 3), ("rosenbrock", 2), ("barrier", 2), ("cos1d", 1), ("radialquartic", 3),
+          ("multiwell", 2)]
     if tier == "thorough":
         bl += [("quartic", 1), ("quartic", 5), ("quartic", 8)]
     return bl
@@ -121,6 +122,20 @@ def _problems(fam, n, seed):
         for sl, x0 in [("zero", [0.0, 0.0]), ("nearwall", [0.999, -0.999]), ("corner", [-0.9, 0.9]),
                        ("mid", [0.5, -0.2]), ("tinywall", [1.0 - 1e-9, 0.0])]:
             out.append(({"fam": "barrier", "basis": "-", "start": sl}, d, onp.array(x0)))
+    elif fam == "radialquartic":
+        # indefinite quadratic + radial quartic in 3 variables with a stale SPD preconditioner assembled at xp: the one
+        # known instance on which the dogleg step between the Cauchy point and a negative-curvature CG point has a
+        # POSITIVE model value after a rejection (reaches the solver's "positive model objective" re-sign branch)
+        d = {"A": onp.array([[-6.123, -0.203, 3.673], [-0.203, 1.962, -0.749], [3.673, -0.749, 1.385]]),
+             "b": -onp.array([-0.0015, 0.0758, 0.0605]), "c4": 4.316, "xp": onp.array([-0.3968, 0.4295, 0.2319])}
+        for sl, x0 in [("zero", [0.0, 0.0, 0.0]), ("atxp", d["xp"]), ("far", [2.0, -1.0, 1.5]),
+                       ("small", [1e-3, -2e-3, 5e-4]), ("e1", [1.0, 0.0, 0.0])]:
+            out.append(({"fam": "radialquartic", "basis": "-", "start": sl}, d, onp.array(x0, dtype=float)))
+    elif fam == "multiwell":
+        d = {"b": onp.zeros(2), "a": 2.0}
+        for sl, x0 in [("barrier-jump", [1.0, 0.5]), ("origin", [0.0, 0.0]), ("off", [2.0, -1.0]), ("near", [0.3, 0.3]),
+                       ("far", [5.0, 5.0])]:
+            out.append(({"fam": "multiwell", "basis": "-", "start": sl}, d, onp.array(x0)))
     elif fam == "cos1d":
         d = {"t": 0.0}
         u = R.tan_fixed_point()
@@ -148,6 +163,19 @@ def _make_objective(fam, n):
 
         def params(d, old=False):
             return Objective.Params(bc_data=jnp.array([(0.5 if old else 1.0) * d["a"]]), app_data=jnp.array(d["bb"]))
+    elif fam == "radialquartic":
+        def f(x, p):
+            return 0.5 * x @ (p[2] @ x) - p[0] @ x + p[3] * (x @ x) ** 2
+
+        def params(d, old=False):
+            return Objective.Params(bc_data=jnp.array((0.5 if old else 1.0) * d["b"]), design_data=jnp.array(d["A"]),
+                                    app_data=jnp.array(d["c4"]))
+    elif fam == "multiwell":
+        def f(x, p):
+            return 0.5 * x @ x - p[0] @ x + p[3] * jnp.sum(jnp.cos(3.0 * x))
+
+        def params(d, old=False):
+            return Objective.Params(bc_data=jnp.array(d["b"] + (0.01 if old else 0.0)), app_data=jnp.array(d["a"]))
     elif fam == "barrier":
         def f(x, p):
             return 0.5 * jnp.sum((x - p[0]) ** 2) - p[3] * jnp.sum(jnp.log(1 - x ** 2))
@@ -237,8 +265,11 @@ def run_group(g, tier, seed, rec):
                         shim.FAIL_PLAN[:] = [True]
                     elif pc == "identity":
                         shim.FAIL_ALWAYS[0] = True
-                    obj.update_precond(x0j + 1.0 if (pc == "stale" and fam != "barrier") else
-                                       (0.5 * x0j if pc == "stale" else x0j))
+                    if pc == "stale" and fam == "radialquartic":
+                        obj.update_precond(jnp.array(d["xp"]))
+                    else:
+                        obj.update_precond(x0j + 1.0 if (pc == "stale" and fam != "barrier") else
+                                           (0.5 * x0j if pc == "stale" else x0j))
                     shim.FAIL_PLAN[:] = []
                     if entry == "trm":
                         xr, ok = ES.trust_region_minimize(obj, x0j, settings, callback=cb)
